@@ -69,6 +69,15 @@ PROPS["C09"] = {"level": "exploration",
 
 PROPS["C02"]["parts"].append(H("TestC02Backpressure", "Wbp", 60, 600, qs=2, ts=16, hang_is_violation=True))
 PROPS["C04"]["parts"].append(H("TestC04Backpressure", "Wbp", 60, 600, qs=1, ts=16, hang_is_violation=True))
+_BIN = ["part binary: the real executable built from /repo/cmd, a fake discovery service that completes (or withholds) the registration, a harness-owned credit service, real WebSocket clients over loopback TCP, real time; a start-up or transport problem is inconclusive (skip), never a violation"]
+PROPS["C15"]["parts"].append(H("TestC15Binary", "binary", 40, 600, qs=1, ts=4))
+PROPS["C15"]["assumptions"] += _BIN
+PROPS["C17"]["parts"].append(H("TestC17Binary", "binary", 8, 120, qs=1, ts=8))
+PROPS["C17"]["assumptions"] = PROPS["C17"]["assumptions"] + _BIN
+PROPS["C19"]["parts"].append(H("TestC19Binary", "binary", 15, 200, qs=1, ts=4))
+PROPS["C19"]["assumptions"] += _BIN
+PROPS["C08"]["parts"].append(H("TestC08Binary", "binary", 40, 600, qs=1, ts=4))
+PROPS["C08"]["assumptions"] += _BIN
 for _p in ("C01", "C02", "C07", "C09", "C10"):
     PROPS[_p]["parts"].append(dict(H("Test%sSched" % _p, "S", 1500, 4000, qs=2, ts=16, hang_is_violation=True), sched=True))
     PROPS[_p]["assumptions"] = PROPS[_p]["assumptions"] + ["part S: scheduling points exist only at the lock acquisitions of models/*.go and modules/*/state.go (sync import redirected to the overlay package vsync); interleavings inside a critical section are not explored; RWMutex is modelled with Go's writer preference; thorough tier enumerates all schedules with <= 2 preemptions for up to 400 generated blocks per shard"]
